@@ -261,6 +261,33 @@ Theorem thread_result : forall scripts results started s0 v0 sched, 0 <= v0 -> f
 Proof. exact thread_result_l. Qed.
 Print Assumptions thread_result.
 
+(* round 6: Thread::start whose pthread_create FAILS (script op ThStartF c; the failing outcome is an input of the scenario, and
+   every theorem of this file is stated for any scripts, hence also for scripts with failing starts).  For ANY world: the move in
+   which a runnable thread executes such a start() changes nothing but that thread's own position in its script and the history
+   (start returned false): no primitive, no flag, no occupancy, NO HANDLE, no ghost mark, no other thread - the Thread object stays
+   unstarted.  Because nothing another thread can see changes, the moment at which the create fails is immaterial and the
+   failing start needs no scheduler move of its own. *)
+Theorem failed_start_changes_nothing : forall w t c rest,
+  runnable (st (ps w) t) = true -> pc (tc w t) = Idle -> script (tc w t) = ThStartF c :: rest ->
+  let w' := step w (Run t) in
+  ps w' = ps w /\ sigf w' = sigf w /\ monf w' = monf w /\ occ w' = occ w /\ handle w' = handle w /\ mark w' = mark w /\
+  (forall u, u <> t -> tc w' u = tc w u) /\
+  pc (tc w' t) = Idle /\ script (tc w' t) = rest /\ trace w' = EvRet t (ThStartF c) 0 :: trace w.
+Proof. exact failed_start_changes_nothing_l. Qed.
+Print Assumptions failed_start_changes_nothing.
+
+(* ... and the retry on the same Thread object succeeds (any world in which the object has no thread and the child was never
+   created): the failing start, then the prologue of the second start, its pthread_create and the return to the creator leave the
+   handle stored and the child running; the history shows start = false, then start = true *)
+Theorem start_after_failed_start_succeeds : forall w t c rest,
+  st (ps w) t = TRun -> pc (tc w t) = Idle -> script (tc w t) = ThStartF c :: ThStart c :: rest ->
+  handle w c = false -> st (ps w) c = TNotStarted ->
+  let w' := run w [Run t; Run t; Run t; Run t] in
+  handle w' c = true /\ st (ps w') c = TRun /\ pc (tc w' t) = Idle /\ script (tc w' t) = rest /\
+  trace w' = EvRet t (ThStart c) 1 :: EvRet t (ThStartF c) 0 :: trace w.
+Proof. exact start_after_failed_start_succeeds_l. Qed.
+Print Assumptions start_after_failed_start_succeeds.
+
 (* ---------------- granularity: the fine machine (SyncFine.v) ---------------- *)
 (* a thread standing in front of an access to Signal::signaled owns the Signal's mutex and is running - any scripts *)
 Theorem fine_signal_accesses_under_mutex : forall scripts results started s0 v0 fsched t,
@@ -490,6 +517,21 @@ Example ex_join_child_first_history :
   trace (reach join_sc res_big only0 false 0 (runs 0%nat 2%nat ++ runs 1%nat 2%nat ++ runs 0%nat 3%nat))
   = [EvRet 0%nat (ThJoin 1%nat) 4000000256; EvJoin 0%nat 1%nat 4000000256; EvRet 0%nat (ThStart 1%nat) 1;
      EvExit 1%nat 4000000256; EvRet 1%nat CsEnter 1].
+Proof. vm_compute. reflexivity. Qed.
+
+(* round 6: the first start() fails in pthread_create (ThStartF), the retry on the same Thread object succeeds, the thread
+   function returns 101 and join returns 101 *)
+Definition retry_sc := sc3 [ThStartF 1%nat; ThStart 1%nat; ThJoin 1%nat] [CsEnter] [].
+Example ex_retry_after_failed_start :
+  trace (reach retry_sc res100 only0 false 0 (runs 0%nat 5%nat ++ runs 1%nat 2%nat ++ runs 0%nat 1%nat))
+  = [EvRet 0%nat (ThJoin 1%nat) 101; EvJoin 0%nat 1%nat 101; EvExit 1%nat 101; EvRet 1%nat CsEnter 1;
+     EvRet 0%nat (ThStart 1%nat) 1; EvRet 0%nat (ThStartF 1%nat) 0].
+Proof. vm_compute. reflexivity. Qed.
+(* after the failing start alone: no handle, the child was never created, the join of the unstarted object returns at once *)
+Example ex_failed_start_leaves_unstarted :
+  let w := reach (sc3 [ThStartF 1%nat; ThJoin 1%nat] [] []) res100 only0 false 0 (runs 0%nat 1%nat) in
+  (handle w 1%nat, st (ps w) 1%nat, trace (step w (Run 0%nat)))
+  = (false, TNotStarted, [EvRet 0%nat (ThJoin 1%nat) 0; EvRet 0%nat (ThStartF 1%nat) 0]).
 Proof. vm_compute. reflexivity. Qed.
 
 (* ---------------- fine machine ---------------- *)
